@@ -2178,6 +2178,56 @@ fn repoll(cfg: &Cfg) {
         }
     };
     poll_fd(&mut f, &mut resolved);
+    if cfg.opt("stop", 0) == 1 {
+        // `stop`=1: the pool comes back and takes the queue over *while* the owner disposes of its future (`fin`: 0 polls it
+        // again, 1 calls .sync() on it, 2 drops it) and the events fire; a desync is queued behind
+        let env = {
+            let (a, b) = (g1.clone(), g2.clone());
+            spawn(move || {
+                a.open();
+                b.open();
+            })
+        };
+        bg1.open();
+        w.desync(&q, "D", Body::plain());
+        match cfg.opt("fin", 0) {
+            0 => {
+                poll_fd(&mut f, &mut resolved);
+                join(env, "env");
+                rt::quiesce();
+                if !resolved {
+                    let prev = rt::note("in:await-fd FD");
+                    let r = block_on(f);
+                    rt::note(&prev);
+                    if r != Ok(h.token) {
+                        rt::violation("FUTURE-RESULT FD (awaited late) resolved to the wrong value".into());
+                    }
+                }
+            }
+            1 => {
+                let prev = rt::note("in:fd.sync FD");
+                let fut = *std::pin::Pin::into_inner(f);
+                let r = if resolved { Ok(h.token) } else { fut.sync() };
+                rt::note(&prev);
+                if r != Ok(h.token) {
+                    rt::violation("FUTURE-RESULT FD.sync() returned the wrong value".into());
+                }
+                if w.rec.get(h.op).ends.is_empty() {
+                    rt::violation("RESULT-BEFORE-END FD.sync() returned before the operation had finished".into());
+                }
+                join(env, "env");
+            }
+            _ => {
+                drop(f);
+                join(env, "env");
+            }
+        }
+        let mut objs: Vec<&Obj> = vec![&q];
+        objs.extend(pins.iter());
+        finish(&w, &objs, pool);
+        shutdown();
+        return;
+    }
     // the pool comes back and takes the suspended queue over
     bg1.open();
     rt::quiesce();
